@@ -21,16 +21,27 @@ def _nodes(g, n):
 
 
 # ------------------------------------------------------------------------------------- C05.step
-def check_fva_step(ctx, rule: str) -> None:
+def _literal_dict(fn: FuncInfo, e: ast.AST) -> Optional[ast.Dict]:
+    """The dict literal an argument denotes: the literal itself or a local assigned exactly once from one."""
+    if isinstance(e, ast.Dict):
+        return e
+    if isinstance(e, ast.Name):
+        defs = [d for d in walk_local(fn.node) if isinstance(d, ast.Assign) and len(d.targets) == 1 and isinstance(d.targets[0], ast.Name) and d.targets[0].id == e.id]
+        if len(defs) == 1 and isinstance(defs[0].value, ast.Dict):
+            return defs[0].value
+    return None
+
+
+def check_fva_step(ctx, rule: str, covered_by: Optional[str] = None) -> None:
     """_fva_step: the {fwd: 1, rev: -1} objective write is matched on every normal exit by
-    {fwd: 0, rev: 0} on the same pair."""
+    {fwd: 0, rev: 0} on the same pair. An unfamiliar spelling is left to the formulation-level clause."""
     prog = ctx.prog
     fn = prog.func("cobra.flux_analysis.variability", "_fva_step")
     g = ctx.flow.cfg(fn)
     writes = []
     for n in walk_local(fn.node):
-        if isinstance(n, ast.Call) and isinstance(n.func, ast.Attribute) and n.func.attr == "set_linear_coefficients" and n.args and isinstance(n.args[0], ast.Dict):
-            d = n.args[0]
+        if isinstance(n, ast.Call) and isinstance(n.func, ast.Attribute) and n.func.attr == "set_linear_coefficients" and n.args and _literal_dict(fn, n.args[0]) is not None:
+            d = _literal_dict(fn, n.args[0])
             vals = []
             recv = set()
             for k, v in zip(d.keys, d.values):
@@ -43,7 +54,11 @@ def check_fva_step(ctx, rule: str) -> None:
     sets = [(n, v, r) for n, v, r in writes if v.get(("FWD",)) not in ("0", None) ]
     resets = [(n, v, r) for n, v, r in writes if v.get(("FWD",)) == "0" and v.get(("REV",)) == "0"]
     if not sets:
-        raise AnalysisError("_fva_step: the objective coefficient write was not found")
+        if covered_by:
+            ctx.ok(rule, fn, fn.node, f"no familiar spelling of the per-step objective write; decided at formulation level by {covered_by}", nontrivial=False)
+            sets = []
+        else:
+            raise AnalysisError("_fva_step: the objective coefficient write was not found")
     for n, v, r in sets:
         good = [x for x, _, r2 in resets if r2 == r]
         if not good:
@@ -139,6 +154,8 @@ def _eval_kwargs_under_direction(ctx, fn: FuncInfo, call: ast.Call, direction: s
                 for k in d:
                     if k in out:
                         out[k] = True
+            else:
+                return None  # **{...} / **f(...): not evaluated here
     return out
 
 
